@@ -56,6 +56,7 @@ type smRig struct {
 	pnum    int64
 	pkts    map[int64]*sentPacket
 	dead    bool
+	cfg     [7]int64
 
 	// ---- oracle bookkeeping (not used to compute results)
 	prop        int
@@ -97,7 +98,7 @@ func smNewRig(cfg [7]int64, prop int) *smRig {
 	c.streams.peerInitialMaxStreamDataBidiLocal = cfg[4]
 	c.streams.peerInitialMaxStreamDataRemote[bidiStream] = cfg[5]
 	c.streams.peerInitialMaxStreamDataRemote[uniStream] = cfg[6]
-	return &smRig{c: c, now: time.Now(), streams: map[int64]*Stream{}, pkts: map[int64]*sentPacket{}, prop: prop,
+	return &smRig{c: c, cfg: cfg, now: time.Now(), streams: map[int64]*Stream{}, pkts: map[int64]*sentPacket{}, prop: prop,
 		inData: map[int64]int64{}, inFinal: map[int64]int64{}, inHigh: map[int64]int64{}, inResetSeen: map[int64]bool{},
 		sawEOF: map[int64]bool{}, written: map[int64]int64{}, peerMSD: map[int64]int64{}, peerMaxData: cfg[3],
 		advMSD: map[int64]int64{}, advMaxData: conf.maxConnReadBufferSize(), sentHigh: map[int64]int64{},
@@ -164,7 +165,19 @@ func (r *smRig) open(id int64) bool {
 	r.inFinal[id] = -1
 	r.inFinalRec[id] = -1
 	r.resetSent[id] = -1
-	r.peerMSD[id] = s.outwin
+	// the peer's limit for our sending comes from ITS transport parameters, by stream type and initiator
+	// (not from the stream's own outwin, which is what is being checked):
+	// peer-opened bidi -> initial_max_stream_data_bidi_local, our bidi -> bidi_remote, our uni -> uni
+	switch id & 3 {
+	case 0:
+		r.peerMSD[id] = r.cfg[4]
+	case 1:
+		r.peerMSD[id] = r.cfg[5]
+	case 3:
+		r.peerMSD[id] = r.cfg[6]
+	default:
+		r.peerMSD[id] = 0 // peer-opened unidirectional: we never send
+	}
 	r.advMSD[id] = s.inwin
 	return true
 }
@@ -822,6 +835,9 @@ func (r *smRig) oracleState(o smOut, op string) {
 		for _, id := range r.ids {
 			s := r.streams[id]
 			total += s.outmaxsent
+			if s.outwin > r.peerMSD[id] {
+				o.Fail("", fmt.Sprintf("%s: stream %d send window outwin=%d exceeds the largest limit the peer granted for it (%d: transport parameter by stream type/initiator, or MAX_STREAM_DATA)", op, id, s.outwin, r.peerMSD[id]))
+			}
 			if s.outmaxsent > s.outwin {
 				o.Fail("", fmt.Sprintf("%s: stream %d outmaxsent=%d > outwin=%d", op, id, s.outmaxsent, s.outwin))
 			}
@@ -895,6 +911,12 @@ func smGen(r *vu.Rng, i int, prop int) []string {
 		// conn-level limits close to the stream-level ones so both bind
 		cfg[2] = cfg[0] + int64(r.Intn(64))
 		cfg[3] = cfg[5] + int64(r.Intn(64))
+	}
+	if r.Chance(1, 3) {
+		// asymmetric per-type stream limits of the peer: small for streams it opens, larger for ours
+		cfg[4] = int64(r.Range(1, 64))
+		cfg[5] = cfg[4] + int64(r.Range(1, 3000))
+		cfg[6] = int64(r.Range(1, 200))
 	}
 	line := "reset"
 	for _, v := range cfg {
